@@ -25,7 +25,14 @@ func Root() string {
 }
 
 // Repo is the repository under test.
-func Repo() string { return "/repo" }
+func Repo() string {
+	// VERIF_REPO redirects the whole harness to another checkout (used only to
+	// evaluate seeded changes in scratch worktrees; the registered commands use /repo)
+	if r := os.Getenv("VERIF_REPO"); r != "" {
+		return r
+	}
+	return "/repo"
+}
 
 // Thorough reports whether the run is the thorough tier.
 func Thorough() bool { return os.Getenv("VERIF_TIER") == "thorough" }
